@@ -6,6 +6,8 @@ World: CTL (real of_01 task, Connection, handshake/default handlers, nexus,
 arbiter) with up to 3 scripted switch peers over 2 datapath ids.
 """
 
+import errno
+
 from simkit import sim as S
 from simkit.rng import Rng, mix
 from simkit.check import load_known
@@ -95,6 +97,10 @@ def gen_plan(seed, tier):
   rrj = Rng(mix(seed, "reject"))
   cfg["reject_up"] = (rrj.pick([1, 1, 2]) if cfg["second_nexus"] is None
                       and rrj.chance(0.2) else None)
+  rdc = Rng(mix(seed, "downclose"))
+  cfg["down_listener_closes"] = (rdc.pick(["nexus-disconnect",
+                                           "con-disconnect"])
+                                 if rdc.chance(0.2) else None)
   r5 = Rng(mix(seed, "nexus"))
   cfg["nexus"] = {}
   if r5.chance(0.3):
@@ -108,6 +114,9 @@ def gen_plan(seed, tier):
     if p and r.chance(0.5):
       dpid = scripts[0][0]["dpid"]
     sc = [{"op": "connect", "dpid": dpid}]
+    rem = Rng(mix(seed, "emfile", p))
+    if rem.chance(0.12):
+      sc[0]["emfile"] = rem.randint(1, 3)
     core = ["hello", "features", r.pick(["barrier_ok", "barrier_ok",
                                          "barrier_err"])]
     if r.chance(0.15):
@@ -260,6 +269,23 @@ def _drive(sim, plan, known, hit):
         sim.probes["connection_rejected_in_up_handler"] += 1
         event.connection.disconnect()
     world.nexus.addListenerByName("ConnectionUp", rejecting, priority=-1500)
+  dlc = cfg.get("down_listener_closes")
+  if dlc:
+    # a component that makes sure a switch it is told is gone really is
+    # closed: its ConnectionDown handler disconnects / closes the
+    # connection again, while the announcement is still under way
+    def closing(event):
+      # (disconnect(), the call applications have; close() is the IO
+      # task's, which also owns the list the socket is selected from)
+      sim.probes["down_listener_closed_again"] += 1
+      event.connection.disconnect()
+    if dlc.startswith("nexus"):
+      world.nexus.addListenerByName("ConnectionDown", closing, priority=-1000)
+    else:
+      def hook(event):
+        event.connection.addListenerByName("ConnectionDown", closing,
+                                           priority=-1000)
+      world.nexus.addListenerByName("ConnectionUp", hook, priority=-1000)
   how = cfg.get("down_listener_halts")
   if how:
     # the last ConnectionDown listener on the nexus halts the event (a legal
@@ -308,6 +334,11 @@ def _drive(sim, plan, known, hit):
     if op == "connect":
       if p in peers:
         continue
+      if st.get("emfile"):
+        # the controller process is out of file descriptors just now: its
+        # accept() fails a few times before it takes the connection
+        sim.listeners[6633].accept_script = [errno.EMFILE] * st["emfile"]
+        sim.probes["accept_failed_emfile"] += 1
       peer = world.new_peer("p%d" % p)
       peers[p] = (peer, PeerModel(p, sim.dpids[st["dpid"]]))
       sim.probes["connect"] += 1
